@@ -58,7 +58,8 @@ class Injected(OSError):
 
 
 class Env:
-    def __init__(self, base: Path, pio_present: bool, faults: Tuple[str, ...]):
+    def __init__(self, base: Path, pio_present: bool, faults: Tuple[str, ...], fault_code: int = 1):
+        self.fault_code = fault_code  # exit status of a failing tool run (negative: killed by that signal)
         self.base = base
         self.pio_present = pio_present
         self.faults = set(faults)
@@ -80,8 +81,8 @@ class Env:
             raise FileNotFoundError(2, "No such file or directory: 'pio'")
         if kind in self.faults:
             if kw.get("check"):
-                raise subprocess.CalledProcessError(1, args)
-            return subprocess.CompletedProcess(args, 1)
+                raise subprocess.CalledProcessError(self.fault_code, args)
+            return subprocess.CompletedProcess(args, self.fault_code)
         return subprocess.CompletedProcess(args, 0)
 
 
@@ -286,12 +287,20 @@ def _grid_cases(tier: str, PAIRS, ports):
         for faults in fault_sets:
             for port in (ports if not faults else ports[:1]):
                 yield {"pair": pair, "upload": upload, "pio": pio, "script": script, "faults": list(faults), "port": port}
+            if faults and set(faults) & {"version", "run", "upload"} and pio and upload:
+                # the failing tool run ends with another status: 2, 255, killed by SIGKILL / SIGTERM / SIGSEGV
+                for code in (2, 255, -9, -15, -11):
+                    yield {"pair": pair, "upload": upload, "pio": pio, "script": script, "faults": list(faults), "port": ports[0], "code": code}
+    # ports that are not file names: the text reaches platformio.ini unchanged
+    for port in ("rfc2217://192.168.0.17:4000", "socket://10.0.0.5:2323", "COM3/", "a//b", "./dev/tty", "../tty", "/dev//ttyUSB0", "/dev/./tty", "hwgrep://0483:5740", "loop://", "C:\\dev\\port", "~/tty"):
+        for upload in (True, False):
+            yield {"pair": PAIRS[0] if isinstance(PAIRS, list) else list(PAIRS)[0], "upload": upload, "pio": True, "script": list(SCRIPTS)[0], "faults": [], "port": port}
 
 
 def run_case(case: dict, base: Path) -> Optional[str]:
     work = Path(tempfile.mkdtemp(prefix="c12-", dir=str(base)))
     try:
-        env = Env(work, case["pio"], tuple(case["faults"]))
+        env = Env(work, case["pio"], tuple(case["faults"]), case.get("code", 1))
         platform, board = PAIRS[case["pair"]]
         result, exc = run_target(env, SCRIPTS[case["script"]][0], case["port"], case["upload"], platform, board)
         if isinstance(exc, (KeyboardInterrupt, SystemExit)):
